@@ -28,6 +28,27 @@ func fromHexByte(c byte) (n byte) {
 	}
 }
 
+// toLowerASCII returns s with the ASCII upper-case letters replaced by their
+// lower-case counterparts.  All other bytes, including non-ASCII letters that
+// Unicode lower-cases into ASCII ones, such as U+0130, are left intact, since
+// the ARPA domains are only matched ASCII-case-insensitively.
+func toLowerASCII(s string) (lower string) {
+	for i := 0; i < len(s); i++ {
+		if c := s[i]; c >= 'A' && c <= 'Z' {
+			b := []byte(s)
+			for ; i < len(b); i++ {
+				if c = b[i]; c >= 'A' && c <= 'Z' {
+					b[i] = c - 'A' + 'a'
+				}
+			}
+
+			return string(b)
+		}
+	}
+
+	return s
+}
+
 // ARPA reverse address domains.
 const (
 	arpaV4Suffix = ".in-addr.arpa"
@@ -131,7 +152,7 @@ func IPFromReversedAddr(arpa string) (addr netip.Addr, err error) {
 	defer makeAddrError(&err, arpa, AddrKindARPA)
 
 	// TODO(a.garipov): Add stringutil.HasSuffixFold and remove this.
-	arpa = strings.ToLower(arpa)
+	arpa = toLowerASCII(arpa)
 	switch {
 	case strings.HasSuffix(arpa, arpaV4Suffix):
 		ipStr := arpa[:len(arpa)-len(arpaV4Suffix)]
@@ -368,7 +389,7 @@ func PrefixFromReversedAddr(arpa string) (p netip.Prefix, err error) {
 	defer makeAddrError(&err, arpa, AddrKindARPA)
 
 	// TODO(a.garipov): Add stringutil.HasSuffixFold and remove this.
-	arpa = strings.ToLower(arpa)
+	arpa = toLowerASCII(arpa)
 
 	switch {
 	case strings.HasSuffix(arpa, arpaV4Suffix[len("."):]):
@@ -432,7 +453,7 @@ func ExtractReversedAddr(domain string) (pref netip.Prefix, err error) {
 
 	defer makeAddrError(&err, domain, AddrKindARPA)
 
-	domain = strings.ToLower(domain)
+	domain = toLowerASCII(domain)
 
 	var parseSubnet func(arpa string) (pref netip.Prefix, err error)
 	var indexFirstLabel func(arpa string) (idx int)
